@@ -297,6 +297,11 @@ class Check(PropertyCheck):
                 if failed and len(avail) != len(prev["avail"]):
                     return (f"op {k} {kind}({g:#x}) failed ({'timeout' if o['ret'] == -1 else o['ret']}) and changed the "
                             f"number of free indices {len(prev['avail'])} -> {len(avail)}")
+                if kind == "sub" and a == T_LOST and o["nwrites"] and o["ret"] == 0 and g not in prev["subs"] \
+                        and not any(ge[0] == g and ge[1] != 0 for ge in o["ncp"]):
+                    return (f"op {k}: the table write of subscribe({g:#x}) ended in a command timeout and was never applied, yet the "
+                            f"call reported success: the host reports {sorted(o['subs'])} subscribed and "
+                            f"{len(prev['avail'])} -> {len(avail)} free indices, the NCP table is {o['ncp']}")
                 if kind == "sub" and g in prev["subs"] and (o["ret"] != 0 or o["nwrites"]):
                     return f"op {k}: subscribing to an already subscribed group wrote to the table or failed"
                 if kind == "sub" and g not in prev["subs"] and not prev["avail"] and (o["ret"] == 0 or o["nwrites"]):
